@@ -157,6 +157,48 @@ def check_builtin_operands(ctx, prog, tag):
                    "%s %s a raw `Value` operand without asking the undefined behaviour first: an undefined operand is "
                    "processed silently under Strict / SemiStrict" % (root.path.split("::")[-1], kind), f.where(c.bb))
     ctx.floor("C12.M10 builtin sites iterating / printing a raw operand" + tag, n, 8)
+    # M10c: where the operands come as a collection (`Rest<Value>`) the helper is applied in a loop; that loop must reach
+    # every operand: it is left only when the iterator is exhausted or with an error.  A `break` out of it (say, at the
+    # first operand of unknown length) leaves the operands behind it unasked (seed C12-8).
+    for f in sorted(prog.fns.values(), key=lambda x: x.path):
+        if not f.loc.f.endswith(M10_FILES):
+            continue
+        loops = cfg.natural_loops(f)
+        for c in f.calls():
+            if c.name not in M10_ASSERT or len(c.args) < 2:
+                continue
+            for h, body in loops:
+                if c.bb not in body:
+                    continue
+                nexts = [k for k in f.calls() if k.bb in body and k.name.endswith("::next")]
+                item = any(o.kind == "call" and o.call.name.endswith("::next") and o.call.bb in body
+                           for o in flow.origins(f, c.args[1], through_calls=flow._xpass))
+                if not nexts or not item:
+                    continue
+                # exits of the loop: edges from a body block to a block outside
+                bad = []
+                for b in sorted(body):
+                    for t in f.succ[b]:
+                        if t in body or t == h:
+                            continue
+                        # the iterator is exhausted: the switch on the Option `next()` returned
+                        term = f.term(b)
+                        if term["k"] == "switch":
+                            cd = flow.cond_of(f, b)
+                            if cd.kind == "discr" and any(o.kind == "call" and o.call.name.endswith("::next") for o in flow.origins(f, {"cp": cd.place})):
+                                continue
+                        # an error leaves the function: every return reachable from here assigns Err
+                        reach = cfg.reach_from(f, t)
+                        errs = {bb for bb, i, st in f.all_stmts() if st["k"] == "assign" and st["place"] == {"l": 0}
+                                and st["rv"]["k"] == "agg" and st["rv"].get("variant") == "Err"}
+                        errs |= {k.bb for k in f.calls() if k.dest == {"l": 0}}
+                        if not (reach & body) and cfg.paths_must_pass(f, t, errs, f.returns()):
+                            continue
+                        bad.append(b)
+                ctx.ob("C12.M10.every-operand-of-the-collection-is-asked", "%s%s|%s" % (tag, f.path.split("::")[-1], c.name.split("::")[-1]),
+                       not bad, "the loop in which %s asks the undefined behaviour about each operand can be left early (a `break`): "
+                       "operands behind that point are used without the check, so an undefined one is iterated silently under "
+                       "Strict / SemiStrict" % f.path.split("::")[-1], f.where(bad[0]) if bad else f.where(c.bb))
 
 
 def run(ctx):
